@@ -684,6 +684,13 @@ func emitGame(c *Ctx, g *genGame) {
 	}
 	hx := hexEnc(text)
 	c.Emit("ptnparse " + hx)
+	if c.R.Chance(1, 2) {
+		// the parsed game edited by a tool (annotations, comments), then rendered
+		mods := []string{"", "!", "?", "'", "!!", "?'", "!?"}[c.R.Intn(7)]
+		com := []string{"", "x", "edited comment", "a b  c"}[c.R.Intn(4)]
+		c.Emit("ptnedit " + hx + " " + hexEnc([]byte(mods)) + " " + hexEnc([]byte(com)))
+		c.Count("edit-then-render")
+	}
 	back, err := ptn.ParsePTN(bytes.NewReader(text))
 	if err != nil {
 		if g.safe {
@@ -936,6 +943,13 @@ func emitPTNInput(c *Ctx, b []byte, kind string) {
 	tr := "-"
 	if strings.HasPrefix(out, "ok") {
 		c.Count("ptn.parse=ok")
+		if c.R.Chance(1, 3) {
+			// the parsed game edited by a tool, then rendered
+			mods := []string{"", "!", "?", "'", "!!", "?'", "!?"}[c.R.Intn(7)]
+			com := []string{"", "x", "edited comment", "a b  c"}[c.R.Intn(4)]
+			c.Emit("ptnedit " + hx + " " + hexOrDashStr(mods) + " " + hexOrDashStr(com))
+			c.Count("ptn.edit-then-render")
+		}
 		func() {
 			defer func() { recover() }()
 			if p, err := ptn.ParsePTN(bytes.NewReader(b)); err == nil {
@@ -1126,3 +1140,5 @@ func init() {
 	genTable["C12"] = genC12
 	genTable["C13ptn"] = genC13ptn
 }
+
+func hexOrDashStr(t string) string { return hexEnc([]byte(t)) }
